@@ -53,6 +53,14 @@ CHECKS.update({
    text="The shipped ActionTable/GotoTable/ProductionsTable are matched state by state against the canonical LR(1) automaton built from spec/gocc2.ebnf by an independent reader; the product closes, so language and reduction correspondence hold for all token sequences as far as the tables go; the real Parse (whose recovery code is not in the tables) is driven with every token sequence up to length 5 (thorough 6) and every sequence with a viable prefix up to length 8 (10).",
    note="Semantic actions are replaced by logging stubs (acceptance is the parser's syntactic verdict); one known finding (empty-alternative pseudo recovery) is attributed by a decidable rule.", ref="6 C15"),
 })
+CHECKS.update({
+ "C13": dict(cat="exploration", tech="exhaustive deviation-1 (thorough: deviation-2) respellings of seed grammars through the real generator, byte identity of all output",
+   text="Starting from the canonical spelling, every single departure (each gap x each filler incl. comments and CRLF, each character literal x each escape form of the same code point, each string literal x the other quoting) is generated and run; all emitted bytes, exit status and stdout must be identical - a differential oracle without expected values.",
+   note="Seeds are hand-written grammars covering every production of spec/gocc2.ebnf; the printer/tokenizer of the harness is independent of gocc's scanner.", ref="6 C13"),
+ "C19": dict(cat="exploration", tech="exhaustive fence placements x prose menu for seed grammars: gocc x.md vs gocc x.bnf byte identity; planted illegal characters for diagnostic positions",
+   text="Every subset of production boundaries is used as fence positions, with every prose choice of a menu; the markdown run must equal the run on the concatenated code; an illegal character planted at every token position must be reported at the line:column it has in the markdown file.",
+   note="Fences are whole lines of three back-quotes and never fall inside a token (a multi-line << >> literal stays in one block).", ref="6 C19"),
+})
 NOT_YET = {}
 
 def main():
